@@ -1,4 +1,112 @@
+import BobModel.Model.TarExtract
 import BobModel.Util.Proto
-open Lean Proto
-/-- stub driver of C08: replaced when the model of this property is built -/
-def main : IO Unit := runPure fun _ => err "unsupported"
+open Lean Proto TarExtract
+
+/-
+requests
+ {"op":"extract", "setup":bool, "cfg":{"fuel":n,"canon":b,"parent":b,"lnk":0|1|2},
+  "names":[{"p":[comp..],"t":"dir","mode":n} | {"p":[..],"t":"ref","ino":n}],
+  "inodes":[{"ino":n,"t":"file","data":s,"mode":n} | {"ino":n,"t":"sym","target":s,"mode":n} | {"ino":n,"t":"fifo"|"chr","mode":n}],
+  "next":n, "dest":[comp..], "audit":[comp..], "vsn": s|null,
+  "members":[{"name":s,"type":"reg|dir|sym|lnk|fifo|chr","link":s,"mode":n,"data":s}]}
+   setup=true: TarHelper._extract (removePath audit/content, makedirs, __extractPackage); false: __extractPackage only
+ -> {"out":"ok"|"err:<kind>", "names":[...], "inodes":[...]}   (same encoding, only inodes that a name refers to)
+ {"op":"dispatch","cfg":..,"member":{..}} -> {"ok":"content","name":s,"link":s} | {"ok":"audit"|"skip"} | {"err":kind}
+ {"op":"pack","auditBase":s,"rels":[member..]} -> {"members":[..]}
+ {"op":"accept","wasDownloaded":b,"auditExists":b,"auditHash":s,"workspaceHash":s} -> {"ok":s|null} | {"err":"missingAudit"|"corrupt"}
+ {"op":"realpath","names":..,"inodes":..,"path":[..],"strict":b,"follow":b,"fuel":n} -> {"ok":[..]} | {"err":kind}
+-/
+
+def pathOf (j : Json) (k : String) : List TarExtract.Name := (strList (j.getObjValD k)).map String.toList
+
+def cfgOf (j : Json) : Cfg :=
+  let c := j.getObjValD "cfg"
+  { fuel := getNat c "fuel", canonNames := getBool c "canon", parentCheck := getBool c "parent", lnkCheck := getNat c "lnk" }
+
+def fsOf (j : Json) : FS :=
+  let names := (getArr j "names").filterMap fun e =>
+    let p := pathOf e "p"
+    match getStr e "t" with
+    | "dir" => some (p, Entry.dir (getNat e "mode"))
+    | "ref" => some (p, Entry.ref (getNat e "ino"))
+    | _ => none
+  let inodes := (getArr j "inodes").filterMap fun e =>
+    let md := getNat e "mode"
+    match getStr e "t" with
+    | "file" => some (getNat e "ino", (⟨Obj.file (getStr e "data").toList, md⟩ : Inode))
+    | "sym" => some (getNat e "ino", ⟨Obj.symlink (getStr e "target").toList, md⟩)
+    | "fifo" => some (getNat e "ino", ⟨Obj.fifo, md⟩)
+    | "chr" => some (getNat e "ino", ⟨Obj.chr, md⟩)
+    | _ => none
+  { names := names, inodes := inodes, next := getNat j "next" }
+
+def mtypeOf : String → MType
+  | "dir" => .dir | "sym" => .sym | "lnk" => .lnk | "fifo" => .fifo | "chr" => .chr | _ => .reg
+
+def mtypeName : MType → String
+  | .reg => "reg" | .dir => "dir" | .sym => "sym" | .lnk => "lnk" | .fifo => "fifo" | .chr => "chr"
+
+def memberOf (e : Json) : Member :=
+  { name := (getStr e "name").toList, type := mtypeOf (getStr e "type"), linkname := (getStr e "link").toList,
+    mode := getNat e "mode", data := (getStr e "data").toList }
+
+def memberJson (m : Member) : Json :=
+  Json.mkObj [("name", Json.str (String.ofList m.name)), ("type", Json.str (mtypeName m.type)),
+              ("link", Json.str (String.ofList m.linkname)), ("mode", Json.num m.mode), ("data", Json.str (String.ofList m.data))]
+
+def errName : Err → String
+  | .unsupportedArtifact => "unsupportedArtifact" | .invalidHardLink => "invalidHardLink" | .unknownFile => "unknownFile"
+  | .filter => "filter" | .filterName => "filterName" | .filterParent => "filterParent" | .filterLink => "filterLink"
+  | .oserror => "oserror" | .keyerror => "keyerror" | .unsupported => "unsupported"
+
+def pathJson (p : Path) : Json := Json.arr (p.map fun c => Json.str (String.ofList c)).toArray
+
+def fsJson (fs : FS) : List (String × Json) :=
+  let names := fs.names.map fun (p, e) =>
+    match e with
+    | .dir m => Json.mkObj [("p", pathJson p), ("t", Json.str "dir"), ("mode", Json.num m)]
+    | .ref i => Json.mkObj [("p", pathJson p), ("t", Json.str "ref"), ("ino", Json.num i)]
+  let used := fs.names.filterMap fun (_, e) => match e with | .ref i => some i | _ => none
+  let inodes := (fs.inodes.filter fun (i, _) => used.contains i).map fun (i, o) =>
+    match o.obj with
+    | .file d => Json.mkObj [("ino", Json.num i), ("t", Json.str "file"), ("data", Json.str (String.ofList d)), ("mode", Json.num o.mode)]
+    | .symlink t => Json.mkObj [("ino", Json.num i), ("t", Json.str "sym"), ("target", Json.str (String.ofList t)), ("mode", Json.num o.mode)]
+    | .fifo => Json.mkObj [("ino", Json.num i), ("t", Json.str "fifo"), ("mode", Json.num o.mode)]
+    | .chr => Json.mkObj [("ino", Json.num i), ("t", Json.str "chr"), ("mode", Json.num o.mode)]
+  [("names", Json.arr names.toArray), ("inodes", Json.arr inodes.toArray)]
+
+def werrName : WErr → String
+  | .enoent => "enoent" | .enotdir => "enotdir" | .eloop => "eloop"
+
+def main : IO Unit := runPure fun j =>
+  match getStr j "op" with
+  | "extract" =>
+    let cfg := cfgOf j
+    let fs := fsOf j
+    let vsn : Option Str := match j.getObjVal? "vsn" with | .ok (.str s) => some s.toList | _ => none
+    let ms := (getArr j "members").map memberOf
+    let st := if getBool j "setup" then extractAll cfg (pathOf j "dest") (pathOf j "audit") vsn fs ms
+              else extractPackage cfg (pathOf j "dest") (pathOf j "audit") vsn fs ms
+    let out := match st.err with | none => "ok" | some e => "err:" ++ errName e
+    Json.mkObj (("out", Json.str out) :: fsJson st.fs)
+  | "dispatch" =>
+    match dispatch (cfgOf j) (memberOf (j.getObjValD "member")) with
+    | .error e => Json.mkObj [("err", Json.str (errName e))]
+    | .ok .audit => Json.mkObj [("ok", Json.str "audit")]
+    | .ok .skip => Json.mkObj [("ok", Json.str "skip")]
+    | .ok (.content m) => Json.mkObj [("ok", Json.str "content"), ("name", Json.str (String.ofList m.name)), ("link", Json.str (String.ofList m.linkname))]
+  | "pack" =>
+    let ms := packMembers (getStr j "auditBase").toList (getStr j "auditData").toList ((getArr j "rels").map memberOf)
+    Json.mkObj [("members", Json.arr (ms.map memberJson).toArray)]
+  | "accept" =>
+    let o : DlObs String := ⟨getBool j "wasDownloaded", getBool j "auditExists", getStr j "auditHash", getStr j "workspaceHash"⟩
+    match acceptDownload o with
+    | .ok (some h) => Json.mkObj [("ok", Json.str h)]
+    | .ok none => Json.mkObj [("ok", Json.null)]
+    | .error .missingAudit => Json.mkObj [("err", Json.str "missingAudit")]
+    | .error .corrupt => Json.mkObj [("err", Json.str "corrupt")]
+  | "realpath" =>
+    match walk (fsOf j) (getBool j "strict") (getBool j "follow") (getNat j "fuel") [] (pathOf j "path") with
+    | .ok p => Json.mkObj [("ok", pathJson p)]
+    | .error e => Json.mkObj [("err", Json.str (werrName e))]
+  | _ => err "bad-op"
